@@ -62,6 +62,10 @@ TNext ==
         /\ UNCHANGED inorder
         /\ inp' = [op |-> "U", l |-> e.l, c |-> e.c, rxt |-> e.rxt, t1in |-> e.t1in, lost |-> e.lost]
         /\ out' = [t1 |-> e.t1, full |-> e.post.full, heap_ok |-> e.heap_ok, seq_same |-> e.seq_same]
+     \/ /\ e.ev = "panic"   \* the real handler panicked (recovered by the driver)
+        /\ UNCHANGED <<store, heap, qval, pend, stale, inorder>>
+        /\ inp' = [op |-> "panic"]
+        /\ out' = [full |-> FALSE, heap_ok |-> FALSE, seq_same |-> TRUE]
      \/ /\ e.ev = "end"
         /\ store' = ToStore(e.post)
         /\ heap' = e.post.heap
@@ -75,7 +79,9 @@ TSpec == TInit /\ [][TNext]_tvars
 (***************************************************************************)
 (* monitor: C07                                                            *)
 (***************************************************************************)
-Observed == inp.op \in {"H", "U", "end"}
+Observed == inp.op \in {"H", "U", "end", "panic"}
+\* no history makes the request handler or the tx-timestamp update panic
+TNoPanic == inp.op # "panic"
 \* structural checks made in Go on the REAL tss / tssQ (all 2^20 positions at
 \* "end", the model clients' neighbourhood after every operation)
 TRealStructureOK == Observed => out.heap_ok
